@@ -16,6 +16,9 @@ type vclock struct {
 	mu     sync.Mutex
 	timers []*vtimer
 	afters atomic.Int64
+	// hook, when set, runs at the start of every Now() on the calling goroutine: reading the clock is a point at
+	// which the harness can let something else happen
+	hook atomic.Pointer[func()]
 }
 
 type vtimer struct {
@@ -31,7 +34,12 @@ func newVClock(ns int64) *vclock {
 
 func (c *vclock) Set(ns int64)          { c.nowNs.Store(ns) }
 func (c *vclock) NowNs() int64          { return c.nowNs.Load() }
-func (c *vclock) Now() time.Time        { return time.Unix(0, c.nowNs.Load()) }
+func (c *vclock) Now() time.Time {
+	if f := c.hook.Load(); f != nil {
+		(*f)()
+	}
+	return time.Unix(0, c.nowNs.Load())
+}
 func (c *vclock) Sleep(d time.Duration) { <-c.After(d) }
 
 func (c *vclock) After(d time.Duration) <-chan time.Time {
